@@ -624,7 +624,11 @@ func cmdCheck(id, tier string) int {
 		}
 		newViol++
 		lines = append(lines, fmt.Sprintf("VIOLATION property=%s replay=%s", id, path))
-		fmt.Fprintf(os.Stderr, "--- %s: %s\n%s\n", id, v.Sig, v.Detail)
+		d := v.Detail
+		if len(d) > 1200 {
+			d = d[:1200] + "\n...(see replay file)"
+		}
+		fmt.Fprintf(os.Stderr, "--- %s: %s\n%s\n", id, v.Sig, d)
 	}
 	writeEvidence(c, tier, m, newViol, time.Since(t0), "")
 	for _, l := range lines {
